@@ -8,6 +8,7 @@ import Kvass.Driver.Explore
 import Kvass.Driver.Hash
 import Kvass.Driver.CfgHash
 import Kvass.Driver.Inject
+import Kvass.Driver.Loop
 
 open Kvass.Driver
 
@@ -32,4 +33,5 @@ def main (args : List String) : IO UInt32 := do
   | ["hash"] => loop stdin Hash.handle; return 0
   | ["cfghash"] => loop stdin CfgHash.handle; return 0
   | ["inject"] => loop stdin Inject.handle; return 0
+  | ["loop"] => loop stdin Loop.handle; return 0
   | _ => IO.eprintln "usage: driver <engine>"; return 2
